@@ -971,6 +971,6 @@ def _(eng, ci, a, sp):
     raise Unsupported('symbolic Iterator::max')
 
 
-@S('Iterator::size_hint', 'ExactSizeIterator::len')
+@S('Iterator::size_hint')
 def _(eng, ci, a, sp):
     raise Unsupported('size_hint')
